@@ -1,8 +1,11 @@
 /-
 C08 driver: the model side of the line protocol (format: harness/src/props/c08.rs).
   h <cfg> <init> <step> ...
+  t <cfg> <step> ...
+  s <cfg> <init> <stream> <lens> <c|->   the whole receive path: `Rc.Session.feedAll` with the concrete decoders
 -/
 import Rc.Model.Fsm
+import Rc.Model.Session
 namespace Rc.Drv.C08
 open Rc Rc.Fsm
 
@@ -152,7 +155,7 @@ def showNeg (sep : String) (n : Neg) : String := s!"h{n.hold}{sep}as{n.asn}{sep}
 
 def joinOr (l : List String) : String := if l.isEmpty then "-" else ",".intercalate l
 
-def showResult : StepResult → String
+def showResultWith (upd : Nat → String) : StepResult → String
   | .todo => "todo"
   | .panic => "panic"
   | .next s ok outs =>
@@ -163,7 +166,7 @@ def showResult : StepResult → String
       | _ => none
     let app := outs.filterMap fun
       | .appNegotiated n => some ("G" ++ showNeg "_" n)
-      | .appUpdate n => some s!"U{23 + 4 * n}"
+      | .appUpdate n => some (upd n)
       | .appNotification c sc => some s!"N{c}.{sc}"
       | .appConnectionLost => some "L"
       | _ => none
@@ -172,12 +175,13 @@ def showResult : StepResult → String
       | none => "-"
     s!"{showState s.state} {if ok then "ok" else "err"} {b01 s.crt}{b01 s.hold}{b01 s.ka}{b01 s.dop} {s.counter} {b01 s.conn} {neg} {joinOr pdus} {joinOr app}"
 
+/-- `mU:<n>` is an UPDATE with `n` withdrawals: 23 + 4n octets -/
+def showResult : StepResult → String := showResultWith fun n => s!"U{23 + 4 * n}"
+
 def msgOfToken (s : String) : Option Input :=
   match s.toList with
   | 'w' :: rest =>
-    match parseStep (String.ofList ('m' :: rest)) with
-    | some .msgRouteRefresh => none
-    | r => r
+    parseStep (String.ofList ('m' :: rest))   -- `wR`: deliverable since the repair of K13
   | _ => none
 
 /-- A tick-line step: one `tick()` of the model, or a burst `bU:<k>:<n>`: the peer writes `k` UPDATEs back
@@ -231,6 +235,36 @@ def parseWait (s : String) : Option Nat :=
   | 'W' :: ds => (num (String.ofList ds) 60).bind fun d => if d == 0 then none else some d
   | _ => none
 
+/-- `pB:<hex>` (1..64 octets): the peer writes raw octets that do not make a whole frame -/
+def parseRaw (s : String) : Option Bytes :=
+  match s.splitOn ":" with
+  | ["pB", h] =>
+    if h == "-" then none else
+    match bytesOfHex h with
+    | some b => if b.isEmpty || b.length > 64 then none else some b
+    | none => none
+  | _ => none
+
+/-- the octets the `pB` steps of a line write never let `parse_frame` decide: after each of them
+`Rc.Framing.parseFrame` answers "need more octets" on what was written so far (whatever the decoder);
+at most 5 such steps; with a second connection (`aA`) on the line at most 17 octets in all -/
+def rawOk (steps : List String) : Bool :=
+  let reconnect := steps.any (· == "aA")
+  let rec go : List String → Bytes → Nat → Bool
+    | [], _, _ => true
+    | w :: rest, acc, n =>
+      match parseRaw w with
+      | some b =>
+        let acc := acc ++ b
+        (match Rc.Framing.parseFrame (fun _ => (Outcome.err : Outcome Unit)) acc with
+          | .ok none => true | _ => false) && n < 5 && (!reconnect || acc.length ≤ 17) && go rest acc (n + 1)
+      | none => go rest acc n
+  go steps [] 0
+
+/-- a tick of one of the three polled timers is queued already -/
+def dueNow (c : Clock) : Bool :=
+  [c.ka, c.hold, c.dop].any fun d => match d with | some t => t ≤ c.now | none => false
+
 /-- the seconds a line lets pass without polling the session -/
 def waitSum (steps : List String) : Nat := (steps.filterMap parseWait).foldl (· + ·) 0
 
@@ -247,7 +281,7 @@ def runHistQ (cfg : Cfg) : St → Clock → Nat → List String → Option (List
     | some r => (runHistQ cfg s c r rest).map (roomRecord s :: ·)
     | none =>
       if w.startsWith "q" then none
-      else if w == "T" then
+      else if w == "T" || ((parseRaw w).isSome && dueNow c) then
         -- `Session::tick()` with nothing pending but the timers (paused clock); the record ends with the clock
         match tickTimer cfg s c with
         | .idle => if parseStepsOk rest then some ["idle"] else none
@@ -255,6 +289,10 @@ def runHistQ (cfg : Cfg) : St → Clock → Nat → List String → Option (List
         | .fired _ (.next s' ok outs) c' =>
           (runHistQ cfg s' c' room rest).map ((showResult (queued room (.next s' ok outs)) ++ s!" @{c'.now}") :: ·)
         | .fired _ r _ => if parseStepsOk rest then some [showResult r] else none
+      else if (parseRaw w).isSome then
+        -- `pB:<hex>`: the octets reach the connection's receive buffer, `read_frame` goes on waiting (`rawOk`): no
+        -- frame, no event; the timer branches of `tick()` do not look at the buffer (Rc/Model/Fsm.lean `tickTimer`)
+        (runHistQ cfg s c room rest).map ((roomRecord s ++ s!" @{c.now}") :: ·)
       else if (parseWait w).isSome then
         -- `W<d>`: the paused clock moves `d` seconds, the session is not polled
         let c' := clockWait c ((parseWait w).getD 0)
@@ -270,7 +308,7 @@ def runHistQ (cfg : Cfg) : St → Clock → Nat → List String → Option (List
 where
   parseStepsOk : List String → Bool
     | [] => true
-    | w :: rest => ((parseRoom w).isSome || w == "T" || (parseWait w).isSome || (!(w.startsWith "q") && (parseStep w).isSome)) && parseStepsOk rest
+    | w :: rest => ((parseRoom w).isSome || w == "T" || (parseWait w).isSome || (parseRaw w).isSome || (!(w.startsWith "q") && (parseStep w).isSome)) && parseStepsOk rest
 
 def parseTickStep1 (s : String) : Option DTick :=
   if s == "c" then some (.one .closed)
@@ -304,8 +342,50 @@ where
     | [] => true
     | w :: rest => ((parseRoom w).isSome || (parseTickStep1 w).isSome) && parseTickOk rest
 
+
+/-! ### `s` lines: octets -> frames -> decoded messages -> FSM (Rc/Model/Session.lean) -/
+
+def parseLens (s : String) (total : Nat) : Option (List Nat) :=
+  match (s.splitOn ",").mapM (fun x => num x 20000) with
+  | some v => if v.any (· == 0) || v.length > 80 || v.foldl (· + ·) 0 != total then none else some v
+  | none => none
+
+def chunksOf : Bytes → List Nat → List Bytes
+  | _, [] => []
+  | s, n :: ns => s.take n :: chunksOf (s.drop n) ns
+
+/-- one record per `tick()` that returned; an UPDATE handed to the application is shown by the length of
+its frame (the j-th tick handled the j-th frame) -/
+def showSessTrace : List TickResult → List (Rc.Framing.Frame Input) → List String
+  | [], _ => []
+  | .noConn :: rest, fs => "noconn" :: showSessTrace rest fs.tail
+  | .res r :: rest, fs =>
+    showResultWith (fun _ => s!"U{(fs.head?.map (·.2.length)).getD 0}") r :: showSessTrace rest fs.tail
+
+/-- the session the harness builds for an `s` line: the connection's `SessionConfig` starts as
+`SessionConfig::modern()` (`Connection::for_read_half`) -/
+def runSess (cfg : Cfg) (s : St) (stream : Bytes) (lens : List Nat) (close : Bool) : String :=
+  if !s.conn then "- ## same=1" else
+  let r := Rc.Session.feedAll Rc.Session.sessionWire cfg s Rc.SessionDecode.modern (chunksOf stream lens)
+  let recs := showSessTrace r.trace r.frames
+  -- the peer closes: `read_frame` reads 0 octets: `Ok(None)` on an empty buffer, else "connection reset by peer"
+  let recs := match close, r.live with
+    | true, some buf =>
+      if r.s.conn then recs ++ [showTick (tickStep cfg r.s (if buf.isEmpty then .closed else .readErr))] else recs
+    | _, _ => recs
+  -- `same=1`: Rc.Thm.C09.session_chunking_invariant
+  s!"{if recs.isEmpty then "-" else " ; ".intercalate recs} ## same=1"
+
 def handle (ws : List String) : String :=
   match ws with
+  | ["s", cfg, init, stream, lens, cl] =>
+    match parseCfg cfg, parseInit init, bytesOfHex stream with
+    | some cfg, some s, some st =>
+      if st.isEmpty || st.length > 20000 || (cl != "c" && cl != "-") then "bad-op" else
+      match parseLens lens st.length with
+      | some lens => runSess cfg s st lens (cl == "c")
+      | none => "bad-op"
+    | _, _, _ => "bad-op"
   | "t" :: cfg :: steps =>
     if steps.isEmpty then "bad-op" else
     match parseCfg cfg with
@@ -321,6 +401,7 @@ def handle (ws : List String) : String :=
       -- un-polled time stays below two hold intervals: the hold timer never has two ticks outstanding when the
       -- session resets it (see `clockWait`)
       if cfg.localHold != 0 && waitSum steps ≥ 2 * cfg.localHold then "bad-op" else
+      if !rawOk steps then "bad-op" else
       match runHistQ cfg s (Clock.ofSt cfg s) pduCap steps with
       | some l => " ; ".intercalate l
       | none => "bad-op"
